@@ -454,6 +454,19 @@ def run_config(chk, cfg):
             check_receive(chk, cfg, m, fn)
         if rs == {"observer"}:
             check_observer(chk, cfg, m, fn)
+    # every slot needs its own bit in the flag word: the header documents queues of up to 32 messages (and nothing stops a
+    # caller from making one), so the word must have 32 bits - a narrower member truncates `1 << slot` to nothing for the
+    # higher slots: the send is acknowledged and never received
+    for m in mods:
+        tid = m.di_by_name.get("messageq_t")
+        if tid:
+            sz = {pth: size for pth, off, size, ty in m.di_leaves(tid)}
+            bits = 8 * sz.get("full_flags", 0)
+            chk.ob("R5.flag-width", "messageq_t.full_flags[%s]" % cfg, bits >= 32,
+                   "full_flags has %d bits: one for each of the up to 32 slots" % bits if bits >= 32 else
+                   "full_flags has only %d bits: in a queue of more than %d messages the mask `1 << slot` of slots %d.. is truncated to 0, so "
+                   "messageq_send sets no flag and the message is never received" % (bits, bits, bits), "include/librfn/messageq.h", "messageq_t")
+            break
     # the API functions exist by name even when (in some build) their body no longer touches the queue: a release that
     # releases nothing, a send that sets no flag
     for api, role, what in (("messageq_release", "release", "returns no buffer to the pool (num_free is never incremented)"),
